@@ -12,7 +12,7 @@ from . import core
 
 def emit_dump(path, records, preamble=""):
     """records: list of (rid, [stmt, ...]) where each stmt is C++ that calls vf_out(...)."""
-    out = [preamble, r'''
+    out = [r'''
 namespace {
 std::string vf_line;
 inline void vf_begin(long id) { vf_line = "{\"id\":" + std::to_string(id); }
@@ -22,7 +22,7 @@ inline void vf_i(const char *k, long long v) { vf_kv(k, std::to_string(v)); }
 inline void vf_s(const char *k, const std::string &v) { vf_kv(k, "\"" + v + "\""); }
 inline void vf_end() { vf_line += "}"; std::puts(vf_line.c_str()); }
 }
-''']
+''', preamble]
     for rid, stmts in records:
         out.append("static void rec_%d() { vf_begin(%d); %s vf_end(); }" % (rid, rid, " ".join(stmts)))
     out.append("int main() {")
@@ -81,6 +81,12 @@ def run_dump(cfg, records, wd, tag, preamble="", flags=(), chunk=200, must_compi
         return r1, f1
 
     core.pch_dir(cfg, flags)
+    # the preamble alone must compile, otherwise every record would be "bisected" to a failure
+    src0 = os.path.join(wd, "%s_%s_preamble.cc" % (tag, cfg.name))
+    emit_dump(src0, [], preamble)
+    rc0, err0 = core.syntax_check(cfg, src0, list(flags))
+    if rc0 != 0:
+        raise core.InfraError("dump preamble does not compile under %s:\n%s" % (cfg, err0[:3000]))
     for (r, f) in core.pmap(lambda kc: solve(kc[1], "c%d" % kc[0]), list(enumerate(chunks))):
         results.update(r)
         failed.update(f)
